@@ -98,6 +98,12 @@ func genFlat(c *hc.Ctx) (*canvas.Path, string) {
 				P.LineTo(v.X, v.Y)
 			}
 		}
+		if c.Chance(0.35) {
+			// drawn back to its start point without Close: the implicit closing segment has no length
+			v := vs[k]
+			P.LineTo(v.X, v.Y)
+			return P, "open-returns-to-start"
+		}
 		return P, "open-start-extreme"
 	case 0, 1:
 		closeAll := !c.Chance(0.2)
